@@ -2,6 +2,7 @@ package main
 
 import (
 	"go/ast"
+	"go/token"
 	"go/types"
 )
 
@@ -12,7 +13,28 @@ func rulesC16(c *Ctx) {
 	applyObj := c.FnObj(pM, "", "applySchema")
 	unm := c.FnObj(pIJ, "", "Unmarshal")
 	// role anchor: the handler literal = the literal that calls the typed handler parameter h
-	hParam := tf.Param("h")
+	c.Need(len(tf.NonRecvParams()) == 3, "toolForErr(t, h, cache)")
+	hParam := tf.NonRecvParams()[1]
+	setSchemaObj := c.FnObj(pM, "", "setSchema")
+	// the resolved-schema variable paired with a Tool schema field: the one whose address is handed to
+	// setSchema together with the address of that field
+	resolvedFor := func(field string) types.Object {
+		fld := c.Field(pM, "Tool", field)
+		var out types.Object
+		for _, call := range tf.CallsIn(tf.Body, setSchemaObj, false) {
+			if len(call.Args) < 2 {
+				continue
+			}
+			a0, ok0 := ast.Unparen(call.Args[0]).(*ast.UnaryExpr)
+			a1, ok1 := ast.Unparen(call.Args[1]).(*ast.UnaryExpr)
+			if ok0 && ok1 && a0.Op == token.AND && a1.Op == token.AND && tf.IsField(a0.X, fld) {
+				out = tf.ObjOf(a1.X)
+			}
+		}
+		return out
+	}
+	inputResolved, outputResolved := resolvedFor("InputSchema"), resolvedFor("OutputSchema")
+	c.Need(inputResolved != nil && outputResolved != nil, "toolForErr: setSchema(&tt.InputSchema, &inputResolved, …) and setSchema(&tt.OutputSchema, &outputResolved, …)")
 	var th *Func
 	for _, l := range tf.AllLits() {
 		for _, call := range l.AllCalls(l.Body, false) {
@@ -50,7 +72,7 @@ func rulesC16(c *Ctx) {
 		as, _ := g.Node(inV).(*ast.AssignStmt)
 		c.Need(as != nil && len(as.Lhs) == 2, "handler: input, err = applySchema(...)")
 		inputVar, aerr := th.ObjOf(as.Lhs[0]), th.ObjOf(as.Lhs[1])
-		c.Check(exprStr(inApply.Args[1]) == "inputResolved", "handler:validates-against-input-schema", th, inApply, "arguments are validated against the tool's resolved input schema")
+		c.Check(th.ObjOf(inApply.Args[1]) == inputResolved, "handler:validates-against-input-schema", th, inApply, "arguments are validated against the tool's resolved input schema")
 		guards := g.GuardsAt(hv)
 		c.Check(g.Dominates(inV, hv) && hasAtom(guards, func(a Atom) bool { return AtomSaysNil(a, true, func(e ast.Expr) bool { return th.ObjOf(e) == aerr }) }), "handler:validated-before-call", th, hcall, "h is dominated by applySchema returning no error (guards: %s)", atomsString(guards))
 		// decode
@@ -98,7 +120,8 @@ func rulesC16(c *Ctx) {
 		// inputResolved is always set when setSchema succeeds
 		ss := c.Fn(pM, "", "setSchema")
 		sg := ss.Graph()
-		rf := ss.Param("rfield")
+		c.Need(len(ss.NonRecvParams()) == 3, "setSchema(sfield, rfield, cache)")
+		rf := ss.NonRecvParams()[1]
 		isStore := func(v int) bool {
 			for _, w := range Writes(sg.Node(v), false) {
 				if st, ok := ast.Unparen(w.LHS).(*ast.StarExpr); ok && ss.ObjOf(st.X) == types.Object(rf) {
@@ -125,7 +148,7 @@ func rulesC16(c *Ctx) {
 			var oerr types.Object
 			for _, v := range g.callVertices(applyObj) {
 				call := th.CallsIn(g.Node(v), applyObj, false)[0]
-				if exprStr(call.Args[2]) != "true" || exprStr(call.Args[1]) != "outputResolved" {
+				if exprStr(call.Args[2]) != "true" || th.ObjOf(call.Args[1]) != outputResolved {
 					continue
 				}
 				if a2, ok := g.Node(v).(*ast.AssignStmt); ok && th.ObjOf(a2.Lhs[0]) == src && th.ObjOf(call.Args[0]) == src && g.Dominates(v, wv) {
@@ -138,8 +161,32 @@ func rulesC16(c *Ctx) {
 			// the marshalled value is the handler's output
 			okOut := false
 			for _, w2 := range Writes(th.Body, false) {
-				if th.ObjOf(w2.LHS) == src && w2.RHS != nil && exprStr(w2.RHS) == "json.RawMessage(outbytes)" {
-					okOut = true
+				// outJSON := json.RawMessage(<bytes returned by json.Marshal(outval)>), outval initialised from h's output
+				conv, isConv := ast.Unparen(w2.RHS).(*ast.CallExpr)
+				if th.ObjOf(w2.LHS) != src || w2.RHS == nil || !isConv || len(conv.Args) != 1 {
+					continue
+				}
+				if tv, ok := th.Info().Types[conv.Fun]; !ok || !tv.IsType() {
+					continue
+				}
+				for _, mc := range th.AllCalls(th.Body, false) {
+					fn := th.Callee(mc)
+					if fn == nil || fn.Name() != "Marshal" || len(mc.Args) != 1 {
+						continue
+					}
+					mas, isAs := th.ParentOf(mc).(*ast.AssignStmt)
+					if !isAs || th.ObjOf(mas.Lhs[0]) != th.ObjOf(conv.Args[0]) {
+						continue
+					}
+					// the marshalled variable starts as the handler's second result
+					if has, isAs := g.Node(hv).(*ast.AssignStmt); isAs && len(has.Lhs) == 3 {
+						outObj := th.ObjOf(has.Lhs[1])
+						inspectNoLit(th.Body, func(n ast.Node) {
+							if vs, ok := n.(*ast.ValueSpec); ok && len(vs.Names) == 1 && len(vs.Values) == 1 && th.ObjOf(vs.Names[0]) == th.ObjOf(mc.Args[0]) && th.ObjOf(vs.Values[0]) == outObj {
+								okOut = true
+							}
+						})
+					}
 				}
 			}
 			c.Check(okOut, "handler:structured-content-is-output-json", th, w, "the validated JSON is the marshalled handler output")
@@ -221,7 +268,7 @@ func rulesC16(c *Ctx) {
 		// every success return after Validate
 		for i, r := range successReturns(as) {
 			rv := ag.VertexOf(r)
-			if hasAtom(ag.GuardsAt(rv), func(a Atom) bool { return AtomSaysNil(a, true, func(e ast.Expr) bool { return exprStr(e) == "resolved" }) }) {
+			if hasAtom(ag.GuardsAt(rv), func(a Atom) bool { return AtomSaysNil(a, true, func(e ast.Expr) bool { return as.ObjOf(e) == types.Object(as.NonRecvParams()[1]) }) }) {
 				c.Ok("applySchema:return#"+itoa(i)+"(no schema)", as, r, "no schema to apply")
 				continue
 			}
@@ -230,11 +277,16 @@ func rulesC16(c *Ctx) {
 		// the flag that selects "return the original bytes" is a faithful record of "ApplyDefaults ran"
 		var flag types.Object
 		for _, r := range successReturns(as) {
-			if as.ObjOf(r.Results[0]) == types.Object(as.Param("data")) {
+			if as.ObjOf(r.Results[0]) == types.Object(as.NonRecvParams()[0]) {
 				for _, a := range ag.GuardsAt(ag.VertexOf(r)) {
 					if id, ok := a.E.(*ast.Ident); ok && !a.Val {
-						if _, isVar := as.ObjOf(id).(*types.Var); isVar && id.Name != "ok" {
-							flag = as.ObjOf(id)
+						// a boolean variable that is assigned a literal somewhere (not the comma-ok of a type assertion)
+						if o, isVar := as.ObjOf(id).(*types.Var); isVar {
+							for _, w := range as.writesToVar(as.Body, o, true) {
+								if st, ok := w.(*ast.AssignStmt); ok && len(st.Rhs) == 1 && (exprStr(st.Rhs[0]) == "true" || exprStr(st.Rhs[0]) == "false") {
+									flag = o
+								}
+							}
 						}
 					}
 				}
